@@ -73,6 +73,114 @@ func runErrString(err error) (string, int64) {
 
 func atoi(s string) int { n, _ := strconv.Atoi(s); return n }
 
+var errSinkClose = errors.New("c06: close: delayed write-back failed")
+
+// errParts: the atomic members of Run's error in order, as Model/C06ErrJoin.lean names them: "close" (the sink's
+// Close failed), "flush" (the encoder's final flush), "loop" (an encode / ticker-flush error ended the loop),
+// "dropped:<n>"; a multierror is looked into through its WrappedErrors.
+func errParts(err error) []string {
+	if err == nil {
+		return nil
+	}
+	if me, ok := err.(interface{ WrappedErrors() []error }); ok {
+		var out []string
+		for _, e := range me.WrappedErrors() {
+			out = append(out, errParts(e)...)
+		}
+		return out
+	}
+	var d *aggregator.SomeSamplesDropped
+	switch {
+	case errors.As(err, &d):
+		return []string{fmt.Sprintf("dropped:%d", d.Dropped)}
+	case errors.Is(err, errSinkClose):
+		return []string{"close"}
+	case strings.Contains(err.Error(), "final flush failed"), strings.Contains(err.Error(), "encoder close failed"):
+		return []string{"flush"}
+	case strings.Contains(err.Error(), "sample encode failed"):
+		return []string{"loop"}
+	}
+	return []string{"other:" + drv_clean(err.Error())}
+}
+
+func errPartsString(err error) (string, int64) {
+	ps := errParts(err)
+	if len(ps) == 0 {
+		return "nil", 0
+	}
+	var dropped int64
+	for _, p := range ps {
+		if strings.HasPrefix(p, "dropped:") {
+			n, _ := strconv.ParseInt(p[len("dropped:"):], 10, 64)
+			dropped += n
+		}
+	}
+	return strings.Join(ps, "+"), dropped
+}
+
+// ---- borrowed samples (core.BorrowedSample): the reporter owns a small pool of sample objects; the aggregator has to
+// hand each one back (Return) when it is done with it — after it was encoded, or when it was dropped — and the owner
+// recycles it AT ONCE for its next report. A sample handed back before it was encoded reaches the output with the
+// content of a later report (or the poison Return leaves in it).
+type borrowPool struct {
+	mu      sync.Mutex
+	free    []*borrowed
+	made    int
+	returns int
+	dbl     int
+}
+
+type borrowed struct {
+	jsample
+	pool *borrowPool
+	out  bool
+}
+
+func (p *borrowPool) get(limit int) *borrowed {
+	deadline := time.Now().Add(20 * time.Second)
+	for {
+		if time.Now().After(deadline) {
+			// the aggregator keeps what it got (it is gone, or it leaks): do not spin for ever
+			return &borrowed{pool: p, out: true}
+		}
+		p.mu.Lock()
+		if n := len(p.free); n > 0 {
+			b := p.free[n-1]
+			p.free = p.free[:n-1]
+			b.out = true
+			p.mu.Unlock()
+			return b
+		}
+		if p.made < limit {
+			p.made++
+			p.mu.Unlock()
+			return &borrowed{pool: p, out: true}
+		}
+		p.mu.Unlock()
+		runtime.Gosched() // every object is with the aggregator: wait for one to come back
+	}
+}
+
+func (b *borrowed) Return() {
+	p := b.pool
+	p.mu.Lock()
+	defer p.mu.Unlock()
+	p.returns++
+	if !b.out {
+		p.dbl++
+		return
+	}
+	b.out = false
+	// poison: whoever still reads this object sees a sample nobody reported
+	b.R, b.K, b.Tag = -1, -1, "returned"
+	for i := range b.F {
+		b.F[i] = -1
+	}
+	p.free = append(p.free, b)
+}
+
+var _ core.BorrowedSample = (*borrowed)(nil)
+
 // failingSink: accepts failAfter bytes, then every Write fails (disk full); still records closes.
 type failSink struct {
 	*trackFile
@@ -120,8 +228,9 @@ func (f *failSink) WriteString(s string) (int, error) { return f.Write([]byte(s)
 
 type failFs struct {
 	afero.Fs
-	limit int
-	file  *failSink
+	limit    int
+	file     *failSink
+	closeErr error
 }
 
 func (t *failFs) Create(name string) (afero.File, error) {
@@ -129,7 +238,7 @@ func (t *failFs) Create(name string) (afero.File, error) {
 	if err != nil {
 		return nil, err
 	}
-	t.file = &failSink{trackFile: &trackFile{File: f}, limit: t.limit}
+	t.file = &failSink{trackFile: &trackFile{File: f, closeErr: t.closeErr}, limit: t.limit}
 	return t.file, nil
 }
 
@@ -169,6 +278,16 @@ func runQueue(kv map[string]string) string {
 	late := kv["late"] == "1"
 	useFile := kv["sink"] == "file"
 	failAfter := atoi(kv["fail"])
+	closeErr := kv["closeerr"] == "1"
+	borrow := atoi(kv["borrow"])
+	var bpool *borrowPool
+	if borrow > 0 {
+		bpool = &borrowPool{}
+	}
+	var cerr error
+	if closeErr {
+		cerr = errSinkClose
+	}
 	n := g * k
 	if agg == "phout" && (late || failAfter > 0) && q < n {
 		// after phout's Run has returned (cancel seen / write error) nobody empties its queue: a reporter blocked on a
@@ -178,8 +297,8 @@ func runQueue(kv map[string]string) string {
 
 	var run func(ctx context.Context) error
 	var report func(gi, ki int)
-	var file *trackFile
-	var fsink *failSink
+	var file func() *trackFile // the destination; a file that is created lazily does not exist before the run
+	var fsink func() *failSink
 	var path string
 	if useFile {
 		dir, err := os.MkdirTemp("/var/tmp", "c06-sink-")
@@ -208,7 +327,7 @@ func runQueue(kv map[string]string) string {
 		case failAfter > 0:
 			fs = &failFs{Fs: afero.NewMemMapFs(), limit: failAfter}
 		default:
-			fs = newTrackFs()
+			fs = &trackFs{Fs: afero.NewMemMapFs(), closeErr: cerr}
 		}
 		a, err := netsample.NewPhout(fs, conf)
 		if err != nil {
@@ -216,10 +335,15 @@ func runQueue(kv map[string]string) string {
 		}
 		switch f := fs.(type) {
 		case *trackFs:
-			file = f.file
+			file = func() *trackFile { return f.file }
 		case *failFs:
-			fsink = f.file
-			file = fsink.trackFile
+			fsink = func() *failSink { return f.file }
+			file = func() *trackFile {
+				if f.file == nil {
+					return nil
+				}
+				return f.file.trackFile
+			}
 		}
 		wrapped := netsample.WrapAggregator(a)
 		run = func(ctx context.Context) error { return a.Run(ctx, core.AggregatorDeps{Log: zap.NewNop()}) }
@@ -241,12 +365,15 @@ func runQueue(kv map[string]string) string {
 		case useFile:
 			conf.Sink = datasink.NewFile(afero.NewOsFs(), datasink.FileConfig{Path: path})
 		case failAfter > 0:
-			file = &trackFile{}
-			fsink = &failSink{trackFile: file, limit: failAfter}
-			conf.Sink = &failMemSink{fsink}
+			tf := &trackFile{closeErr: cerr}
+			fk := &failSink{trackFile: tf, limit: failAfter}
+			file = func() *trackFile { return tf }
+			fsink = func() *failSink { return fk }
+			conf.Sink = &failMemSink{fk}
 		default:
-			file = &trackFile{}
-			conf.Sink = &memSink{file}
+			tf := &trackFile{closeErr: cerr}
+			file = func() *trackFile { return tf }
+			conf.Sink = &memSink{tf}
 		}
 		conf.ReporterConfig.SampleQueueSize = q
 		conf.FlushInterval = flush
@@ -254,6 +381,19 @@ func runQueue(kv map[string]string) string {
 		a := aggregator.NewJSONLinesAggregator(conf)
 		run = func(ctx context.Context) error { return a.Run(ctx, core.AggregatorDeps{Log: zap.NewNop()}) }
 		report = func(gi, ki int) {
+			if bpool != nil {
+				// a recycled object of the reporter's own pool, overwritten in place
+				b := bpool.get(borrow)
+				b.R, b.K, b.Tag = gi, ki, "r"+strconv.Itoa(gi)
+				if len(b.F) != 10 {
+					b.F = make([]int64, 10)
+				}
+				for i := range b.F {
+					b.F[i] = qField(gi, ki, i)
+				}
+				a.Report(b)
+				return
+			}
 			f := make([]int64, 10)
 			for i := range f {
 				f[i] = qField(gi, ki, i)
@@ -341,9 +481,13 @@ func runQueue(kv map[string]string) string {
 			return "err=no-result-file"
 		}
 	} else {
-		data, closedOK = file.snapshot()
+		data, closedOK = file().snapshot()
 	}
 	errS, dropped := runErrString(runErr)
+	if closeErr {
+		// coinciding faults: the members of the error, in order
+		errS, dropped = errPartsString(runErr)
+	}
 
 	// decode every line
 	type gk struct{ g, k int }
@@ -410,9 +554,18 @@ func runQueue(kv map[string]string) string {
 		obs += fmt.Sprintf(" pre=%d miss=%d", pre, miss)
 	}
 	if failAfter > 0 {
-		fsink.mu2.Lock()
-		obs += fmt.Sprintf(" failed=%d", b2i(fsink.fails > 0))
-		fsink.mu2.Unlock()
+		if fk := fsink(); fk != nil {
+			fk.mu2.Lock()
+			obs += fmt.Sprintf(" failed=%d", b2i(fk.fails > 0))
+			fk.mu2.Unlock()
+		} else {
+			obs += " failed=0"
+		}
+	}
+	if bpool != nil {
+		bpool.mu.Lock()
+		obs += fmt.Sprintf(" returns=%d dblret=%d", bpool.returns, bpool.dbl)
+		bpool.mu.Unlock()
 	}
 	if n <= 300 && bad == 0 && !late && failAfter == 0 {
 		var w []string
